@@ -17,9 +17,22 @@
   values of the `dqnLocked` flag and EVERY schedule (`ReachF progs flag s`; `Reach = ReachF · true`).
   Proofs: invariants preserved by every `step` — Conc/QueueInv.lean (frame lemmas, `step_cases`),
   Conc/QueueInvA.lean (`ConsInv`, `EnqInv`, `GuardInv`, `MutexInv`), Conc/QueueInvB.lean
-  (`NoIfInv`, `QRange`, `OrderInv`), Conc/QueueProgress.lean (enabledness).
+  (`NoIfInv`, `QRange`, `OrderInv`), Conc/QueueInvC.lean (`ScThInv`, `ScOrder`, `KeptInv`: single
+  consumer with `processUntil`), Conc/QueueProgress.lean (enabledness).
+
+  `processUntil` (modes 4/5 of the processing pcs: pre-check, `++ec`, swap everything out, dispatch
+  the events in front of the first one the predicate stops at, put that one and everything behind it
+  back IN FRONT of the queue, notify, `--ec`) is part of the model: conservation, exactly-once,
+  nothing-lost, drained, mutex and progress (sections 1, 2, 4) hold for every family of programs,
+  with or without it.  Order (section 3): `C06_order` is the statement for ANY number of concurrent
+  consumers and needs programs without put-back (`NoIf`: neither `processIf` nor `processUntil`);
+  `C06_order_single_consumer` (3b) is the statement for programs WITH `processUntil` and one consuming
+  thread — with two consumers it is false for the code itself
+  (`C06_processUntil_two_consumers_out_of_order`).  `C06_processUntil_putback_front` (3c) is the put-back
+  itself: whatever the other threads do between the stop and the put-back, the undispatched events
+  return to the front of the queue in their original order, ahead of everything spliced in meanwhile.
 -/
-import EventppVerif.Conc.QueueInvB
+import EventppVerif.Conc.QueueInvC
 import EventppVerif.Conc.QueueProgress
 
 namespace Evp.Conc
@@ -118,7 +131,9 @@ theorem C06_order_producer (h : ReachF progs flag s) (p : Tid) :
     rw [show s.enqueued.map (·.1) = List.range s.nextEv from h.enq]; exact List.pairwise_lt_range
   exact List.Pairwise.sublist (List.Sublist.map _ List.filter_sublist) h1
 
-/-- **C06 (order).** Without `processIf` (non-selective consumers: nothing is put back):
+/-- **C06 (order).** Without `processIf` and without `processUntil` (`NoIf`; non-selective consumers:
+    nothing is put back — before `processUntil` was modelled `NoIf` only had `processIf` to exclude;
+    for programs with `processUntil` see `C06_order_single_consumer`):
     * the queue is strictly increasing, and everything that has left it (in flight or consumed) is
       smaller than everything still in it;
     * each thread's local list is strictly increasing, smaller than the whole queue and larger than
@@ -146,6 +161,83 @@ theorem C06_order (hno : NoIf progs) (h : ReachF progs flag s) :
 theorem C06_order_consumer (hno : NoIf progs) (h : ReachF progs flag s) (t : Tid) :
     ((s.consumed.filter (·.2.2 == t)).map (·.1)).Pairwise (· < ·) :=
   (C06_order hno h).2.2.2 t
+
+
+/-! ### 3b. order with `processUntil`: one consumer -/
+
+/-- **C06 (order, single consumer, `processUntil` allowed).** Thread `c` is the only thread that
+    removes events (`process`, `processOne`, `processUntil`, `takeEvent`, `clearEvents` — no
+    `processIf`); any number of other threads enqueue, peek, call `emptyQueue`, wait, use
+    DisableQueueNotify.  Then in every reachable state
+    * every consumed event was consumed by `c`;
+    * the consumed ids in consumption order, followed by `c`'s local list, followed by the queue, form
+      ONE strictly increasing list.
+    Since ids are handed out in splice-in order (`C06_conservation`) this says: the events are
+    dispatched / taken / cleared in exactly the order they were enqueued — in particular those of
+    each single producer (`C06_order_producer`) —, what `c` holds locally is older than everything
+    in the queue, and `processUntil`'s put-back re-establishes the enqueue order of the queue. -/
+theorem C06_order_single_consumer {c : Tid} (hsc : SingleConsumer progs c) (h : ReachF progs flag s) :
+    (∀ x ∈ s.consumed, x.2.2 = c) ∧
+    (consumedIds s ++ s.queue).Pairwise (· < ·) ∧
+    (∀ thc, getT s c = some thc → (consumedIds s ++ inflightOf thc.pc ++ s.queue).Pairwise (· < ·)) :=
+  (h.scAll hsc).order
+
+/-- … in particular the whole consumption sequence is in enqueue order, and the queue is in enqueue
+    order and entirely younger than everything consumed -/
+theorem C06_order_single_consumer_consumed {c : Tid} (hsc : SingleConsumer progs c) (h : ReachF progs flag s) :
+    (consumedIds s).Pairwise (· < ·) ∧ s.queue.Pairwise (· < ·) ∧
+    (∀ x ∈ consumedIds s, ∀ y ∈ s.queue, x < y) ∧
+    ∀ t, ((s.consumed.filter (·.2.2 == t)).map (·.1)).Pairwise (· < ·) := by
+  have h1 := List.pairwise_append.mp (C06_order_single_consumer hsc h).2.1
+  refine ⟨h1.1, h1.2.1, h1.2.2, fun t => ?_⟩
+  exact List.Pairwise.sublist (List.Sublist.map _ List.filter_sublist) h1.1
+
+/-! ### 3c. the put-back of `processUntil` -/
+
+/-- In every family of programs the `kept` list of a processing call that is not a `processIf`
+    (modes 0, 1, 4, 5) is empty: `processUntil` never declines an event and carries on, it stops. -/
+theorem C06_processUntil_kept_nil (h : ReachF progs flag s) {t : Tid} {th : Thread} {m : Nat}
+    {todo kept : List Nat} {any : Bool} (ht : getT s t = some th) (hpc : th.pc = .procLoop m todo kept any)
+    (hm : m ≠ 2 ∧ m ≠ 3) : kept = [] := by
+  have := h.kept t th ht
+  rw [hpc] at this
+  exact this hm
+
+/-- **C06 (`processUntil` puts back in front).** For EVERY family of programs: thread `t` is inside a
+    `processUntil` (mode 4 / 5) whose predicate says stop at the head `e` of what is left of the events
+    it swapped out (`e :: r`, a suffix of the queue as it was at the swap).  Then
+    * its next micro-step (the predicate call) consumes nothing and leaves the queue alone;
+    * however the OTHER threads are scheduled after that (`others`: any schedule without steps of
+      `t` — enqueues, other consumers, anything), `t` still holds exactly `e :: r`;
+    * and whenever `queueListMutex` is free, `t`'s put-back step is enabled and yields
+      `queue = e :: r ++ (the queue at that moment)`: the events `processUntil` did not consume return
+      to the FRONT of the queue, in their original order, ahead of everything spliced in meanwhile;
+      nothing is consumed by that step and `t` holds no event afterwards. -/
+theorem C06_processUntil_putback_front (h : ReachF progs flag s) {t : Tid} {th : Thread} {m e : Nat}
+    {r kept : List Nat} {any : Bool} (ht : getT s t = some th)
+    (hpc : th.pc = .procLoop m (e :: r) kept any) (hm : m = 4 ∨ m = 5) (hstop : stopPred m e = true) :
+    ∃ s1, (∀ ch, step s t ch = some s1) ∧ s1.queue = s.queue ∧ s1.consumed = s.consumed ∧
+      ∀ others : List (Tid × Nat), (∀ x ∈ others, x.1 ≠ t) →
+        getT (exec s1 others) t = some { th with pc := .procPutBack (e :: r) any } ∧
+        ((exec s1 others).qm = none → ∀ ch, ∃ s3, step (exec s1 others) t ch = some s3 ∧
+          s3.queue = e :: r ++ (exec s1 others).queue ∧ s3.consumed = (exec s1 others).consumed ∧
+          ∃ th3, getT s3 t = some th3 ∧ inflightOf th3.pc = []) := by
+  have hk : kept = [] := C06_processUntil_kept_nil h ht hpc (by omega)
+  subst hk
+  refine ⟨goto s t th (.procPutBack (e :: r) any), fun ch => by simp [step, ht, hpc, hstop], rfl, rfl, ?_⟩
+  intro others hne
+  have hg1 : (goto s t th (.procPutBack (e :: r) any)).threads[t]? =
+      some { th with pc := .procPutBack (e :: r) any } := by
+    rw [goto_eq, setT_threads]; exact set_self ht _
+  have hg2 := exec_others_thread (th := { th with pc := .procPutBack (e :: r) any })
+    (by intro timed hh; cases hh) others _ hne hg1
+  refine ⟨hg2, fun hq ch => ?_⟩
+  generalize exec (goto s t th (.procPutBack (e :: r) any)) others = s2 at hg2 hq
+  refine ⟨goto { s2 with queue := (e :: r) ++ s2.queue } t { th with pc := .procPutBack (e :: r) any }
+    (.procPbReadNc any), ?_, rfl, rfl,
+    { th with pc := .procPbReadNc any }, ?_, rfl⟩
+  · simp [step, getT, hg2, hq]
+  · rw [goto_eq, getT, setT_threads]; exact set_self hg2 _
 
 /-! ### 4. the mutex; no deadlock -/
 
@@ -275,6 +367,83 @@ example : ∃ t th ch, getT (exec (init prog3) schedMid) t = some th ∧ isParke
   C06_progress (reach schedMid).reachF
     ⟨0, { prog := [.enqueue], pc := .enqReadEmpty, rets := [.unit, .unit] }, by decide +kernel, rfl, rfl⟩
 
+
 end C06Demo
+
+/-! ### 6. `processUntil`: concrete schedules (outside `C06Demo` so that the audit collects them) -/
+
+open C06Demo (rep)
+
+/-- a producer and ONE consumer that runs `processUntil` (stop at the first odd id), then `process` -/
+def progsUntil : List (List Call) := [[.enqueue, .enqueue, .enqueue], [.processUntil true, .process]]
+
+theorem reachU (sched : List (Tid × Nat)) : Reach progsUntil (exec (init progsUntil) sched) := ⟨sched, rfl⟩
+
+theorem progsUntil_ok : SingleConsumer progsUntil 1 := by decide
+
+/-- the producer enqueues 0 and 1; the consumer passes the pre-check, raises `ec` and swaps `[0, 1]`
+    out (TAKE); the producer enqueues 2 — it lands in the emptied `queueList` —; the consumer
+    dispatches 0 and its predicate stops at 1 -/
+def schedU1 : List (Tid × Nat) := rep 0 10 ++ rep 1 4 ++ rep 0 6 ++ rep 1 2
+
+/-- … the PUT-BACK: `[1]` goes in front of `[2]` -/
+def schedU2 : List (Tid × Nat) := schedU1 ++ rep 1 1
+
+/-- … the consumer finishes `processUntil` (reads `nc`, notifies, `--ec`; result `true`) and drains the
+    queue with `process` -/
+def schedU3 : List (Tid × Nat) := schedU2 ++ rep 1 3 ++ rep 1 8
+
+/-- **Example: an enqueue between the take and the put-back of a `processUntil`.**  After the take the
+    queue is empty and the consumer holds `[0, 1]`; event 2 is spliced in meanwhile; at the stop the
+    consumer is about to put back `[1]` while the queue is `[2]`; the put-back gives `[1, 2]`; the final
+    consumption order of the single consumer is the enqueue order 0, 1, 2. -/
+theorem C06_processUntil_example :
+    (let s := exec (init progsUntil) (rep 0 10 ++ rep 1 4)
+     s.queue = [] ∧ s.threads.map (·.pc) = [.idle, .procLoop 5 [0, 1] [] false] ∧ s.ec = 1) ∧
+    (let s := exec (init progsUntil) schedU1
+     s.queue = [2] ∧ s.threads.map (·.pc) = [.idle, .procPutBack [1] true] ∧
+     s.consumed = [(0, .dispatched, 1)] ∧ s.enqueued = [(0, 0), (1, 0), (2, 0)]) ∧
+    (let s := exec (init progsUntil) schedU2
+     s.queue = [1, 2] ∧ s.threads.map (·.pc) = [.idle, .procPbReadNc true] ∧ s.ec = 1) ∧
+    (let s := exec (init progsUntil) schedU3
+     s.queue = [] ∧ s.threads.all finished = true ∧ s.ec = 0 ∧
+     s.consumed = [(0, .dispatched, 1), (1, .dispatched, 1), (2, .dispatched, 1)] ∧
+     s.threads.map (·.rets) = [[.unit, .unit, .unit], [.bool true, .bool true]]) := by
+  decide +kernel
+
+/-- `C06_order_single_consumer` applies to it (every schedule, not just this one) -/
+example (sched : List (Tid × Nat)) : (consumedIds (exec (init progsUntil) sched)).Pairwise (· < ·) :=
+  (C06_order_single_consumer_consumed progsUntil_ok (⟨sched, rfl⟩ : ReachF progsUntil true _)).1
+
+/-- `C06_processUntil_putback_front` applies at the state right before the stop: the hypotheses are
+    satisfiable (thread 1 at `procLoop 5 [1] [] true`, the predicate stops at 1) -/
+example : ∃ s1, (∀ ch, step (exec (init progsUntil) (rep 0 10 ++ rep 1 4 ++ rep 0 6 ++ rep 1 1)) 1 ch = some s1) ∧
+    s1.queue = [2] ∧ s1.consumed = [(0, .dispatched, 1)] := by
+  obtain ⟨s1, h1, h2, h3, _⟩ := C06_processUntil_putback_front
+    (reachU (rep 0 10 ++ rep 1 4 ++ rep 0 6 ++ rep 1 1)).reachF (t := 1)
+    (th := { prog := [.processUntil true, .process], pc := .procLoop 5 [1] [] true }) (m := 5) (e := 1) (r := [])
+    (kept := []) (any := true) (by decide +kernel) rfl (Or.inr rfl) (by decide)
+  exact ⟨s1, h1, by rw [h2]; decide +kernel, by rw [h3]; decide +kernel⟩
+
+/-- TWO consumers: a `processUntil` thread (stop at the first odd id) and a thread calling `process`
+    twice.  Thread 1 swaps `[0, 1, 2]` out; event 3 is enqueued; thread 2 swaps `[3]` out and dispatches
+    it; thread 1 dispatches 0, stops at 1 and puts `[1, 2]` back; thread 2's second `process` dispatches
+    1 and 2.  Thread 2 has consumed 3, 1, 2 — events of ONE producer, consumed by ONE thread, out of
+    enqueue order: with several consumers `processUntil` (like `processIf`) breaks the order clause in
+    the code itself, so `C06_order` must exclude it and `C06_order_single_consumer` needs its
+    hypothesis. -/
+def progsUntil2 : List (List Call) :=
+  [[.enqueue, .enqueue, .enqueue, .enqueue], [.processUntil true], [.process, .process]]
+
+def schedUntil2 : List (Tid × Nat) := rep 0 15 ++ rep 1 4 ++ rep 0 6 ++ rep 2 7 ++ rep 1 6 ++ rep 2 8
+
+theorem C06_processUntil_two_consumers_out_of_order :
+    let s := exec (init progsUntil2) schedUntil2
+    s.threads.all finished = true ∧ s.queue = [] ∧
+    s.consumed = [(3, .dispatched, 2), (0, .dispatched, 1), (1, .dispatched, 2), (2, .dispatched, 2)] ∧
+    (s.consumed.filter (·.2.2 == 2)).map (·.1) = [3, 1, 2] ∧
+    s.enqueued = [(0, 0), (1, 0), (2, 0), (3, 0)] := by
+  decide +kernel
+
 
 end Evp.Conc
